@@ -546,6 +546,10 @@ def g_nc_payload(rng, tier, props):
     return GN.payload_histories(rng, props, n_of(tier, 150, 3000), tier != "quick")
 
 
+def g_nc_denied_retry(rng, tier, props):
+    return GN.denied_retry_histories(rng, props, n_of(tier, 40, 600))
+
+
 def g_nc_takeover(rng, tier, props):
     return GN.takeover_histories(rng, props, n_of(tier, 60, 1000))
 
@@ -772,7 +776,8 @@ PLANS = {
                 rule="relay fault schedules (drop / duplicate / hold / replay / single-bit corruption per datagram and direction) over 2-3 real "
                      "client transports and one server transport on loopback UDP, with application / peer / transport initiated disconnects "
                      "and cut-off clients; distinct = different step lists; every schedule contains faults"),
-    "C17": Plan("nc", "TraceNetcodeMon", ["C17"], [("bits", g_nc_bits), ("handshake_histories", g_nc_handshake), ("payload_histories", g_nc_payload)],
+    "C17": Plan("nc", "TraceNetcodeMon", ["C17"], [("bits", g_nc_bits), ("handshake_histories", g_nc_handshake), ("payload_histories", g_nc_payload),
+                                                       ("denied_retry", g_nc_denied_retry)],
                 mc=[mc_job("nc_nonce", "MC_Netcode", {"quick": ["MC_NC_q3.cfg"], "thorough": ["MC_NC_q1.cfg", "MC_NC_q2.cfg", "MC_NC_q3.cfg", "MC_NC_q4.cfg"]}, ["C17"], strict=False)],
                 level="model_checking", assumptions=NC_ASSUME),
     "C18": Plan("nc", "TraceNetcodeMon", ["C18"], [("liveness", g_nc_live)],
